@@ -67,10 +67,12 @@ def rule_r1(chk, db, conf):
                             chk.ok("R1", "FileWriter.%s" % f, b.loc(bi), {"delegated_to_callers": sorted(names)}, nontrivial=False)
                         else:
                             chk.fail("R1", "FileWriter.%s" % f, b.loc(bi), "FileWriter.%s is neither confined nor a parameter" % f)
-    # discharge obligations at call sites
+    # discharge obligations at call sites (a caller that only hands its own parameter on passes the obligation to *its* callers)
     seen = set()
-    for fn, param, why in obligations:
-        if (fn, param) in seen:
+    queue = list(obligations)
+    while queue:
+        fn, param, why = queue.pop(0)
+        if (fn, param) in seen or len(seen) > 200:
             continue
         seen.add((fn, param))
         fb = db.body(fn)
@@ -91,6 +93,27 @@ def rule_r1(chk, db, conf):
             # canonicalised root passed before FileSystem exists (FileSystem::new -> clean_old_tmp_files)
             if not ok and any(short(x) == "canonicalize" for x in c["calls"]) and not c["request"]:
                 ok = True
+            if not ok and not c["request"] and c["params"] and not [x for x in c["calls"] if short(x) not in ("as_ref", "as_path", "borrow", "deref", "to_owned", "into", "clone", "as_str")]:
+                # the caller passes its own (path-typed) parameter on unchanged: its callers carry the obligation
+                rb = db.root_of(b)
+                handed = []
+                for l, pr in c["params"]:
+                    nm = None
+                    if b is rb:
+                        nm = l if 1 <= l <= rb.argc and rb.local_name(l) != "self" else None
+                    else:
+                        for nme, pl in b.debug_places():
+                            if pl["l"] == l and flow.proj_names(flow.norm_proj(pl["proj"])) == flow.proj_names(pr)[:len(flow.proj_names(flow.norm_proj(pl["proj"])))] and \
+                                    nme not in ("self", "_task_context"):
+                                nm = nme
+                    if nm is not None:
+                        handed.append(nm)
+                if handed:
+                    for nm in handed:
+                        queue.append((rb.name, nm, "handed on to %s" % short(fn)))
+                    chk.ok("R1", "caller:%s->%s(%s)#%d" % (rb.name.replace("s3s_fs::", ""), short(fn), fb.local_name(idx) if fb else idx, bi), b.loc(bi),
+                           {"delegated_to_callers": [str(x) for x in handed]}, nontrivial=False)
+                    continue
             chk.verdict(ok, "R1", "caller:%s->%s(%s)#%d" % (db.root_of(b).name.replace("s3s_fs::", ""), short(fn), fb.local_name(idx) if fb else idx, bi), b.loc(bi),
                         "argument `%s` of %s (%s) is not a confined path (request data: %s)" % (fb.local_name(idx) if fb else idx, short(fn), why, sorted(c["request"])[:3]))
 
